@@ -485,7 +485,7 @@ static std::vector<int> minimise(const World& w, int phase, std::vector<int> h, 
 
 struct Culprit { std::string clause; std::vector<int> setters; std::string key; };
 
-static void run_H(vmc::Ctx& ctx, const World& w, int phase, int depth, uint64_t& unit)
+static void run_H(vmc::Ctx& ctx, const World& w, int phase, int depth, uint64_t& unit, bool without_template_and_exam_info_ops = false)
 {
   const bool replay = ctx.replaying();
   Fresh fresh(w);
@@ -573,16 +573,20 @@ static void run_H(vmc::Ctx& ctx, const World& w, int phase, int depth, uint64_t&
       if (v.bad()) report(h, v);
       return;
     }
-  const int nops = w.ip ? NOPS_IP : NOPS;
-  for (int first = 0; first < nops; ++first, ++unit)
+  std::vector<int> alpha; // the alphabet of this world: operation codes as in OPNAME (histories and case strings hold operation codes)
+  for (int op = 0; op < (w.ip ? NOPS_IP : NOPS); ++op)
+    if (!(without_template_and_exam_info_ops && op >= 6 && op <= 9)) alpha.push_back(op);
+  const int nops = (int)alpha.size();
+  for (int first : alpha)
     {
+      struct Next { uint64_t& u; ~Next() { ++u; } } next{ unit };
       if (!ctx.mine(unit)) continue;
       if (ctx.expired()) return;
       vmc::HistSearch hs;
       hs.nops = nops; hs.max_depth = depth - 1;
       hs.expired = [&] { return ctx.expired(); };
       hs.build = [&](const std::vector<int>& tail, std::string& ek, std::string& em) -> std::string {
-        std::vector<int> h; h.push_back(first); h.insert(h.end(), tail.begin(), tail.end());
+        std::vector<int> h; h.push_back(first); for (int t : tail) h.push_back(alpha[t]);
         ctx.current(wname, wname + ";h=" + vmc::join(h));
         Verdict v = run_history(w, phase, h, fresh, &ctx);
         check_rand(ctx, wname + ";h=" + vmc::join(h));
@@ -593,7 +597,7 @@ static void run_H(vmc::Ctx& ctx, const World& w, int phase, int depth, uint64_t&
       hs.on_state = [&](const std::vector<int>& tail, const std::string& c) {
         ctx.digest(c);
         if ((int)tail.size() + 1 == depth && ctx.samples.size() < 4 && c.find("|v1|") != std::string::npos && c.back() != '-')
-          { std::vector<int> h; h.push_back(first); h.insert(h.end(), tail.begin(), tail.end()); ctx.sample(wname + ": " + hist_names(h) + " => " + c); }
+          { std::vector<int> h; h.push_back(first); for (int t : tail) h.push_back(alpha[t]); ctx.sample(wname + ": " + hist_names(h) + " => " + c); }
       };
       const vmc::HistResult r = hs.run();
       ctx.count("states", r.states);
@@ -791,7 +795,10 @@ int main(int argc, char** argv)
   ctx.rule = "E: one evaluation = one configuration (geometry, attenuation, scatter-point image, template, energy window, threshold) with the outputs for every unit "
              "voxel, 14 superpositions (cache on and off) and all detector pairs; non-trivial = a unit voxel that gives non-zero scatter. "
              "H: explicit-state BFS over setter/set_up/compute histories replayed on fresh SingleScatterSimulation objects; state = configuration tuple + set-up flag + "
-             "hash of all private members that influence later results + last output; every compute compared with a freshly configured object";
+             "hash of all private members that influence later results + last output; every compute compared with a freshly configured object. "
+             "In-place worlds: the images given to the simulation are caller-owned objects and the alphabet also has 'overwrite the voxel values of that object in place and call the "
+             "setter again with the same shared_ptr' for the activity, attenuation and scatter-point image (state additionally: which objects the simulation was given / holds); "
+             "E also re-uses one object per cache setting over all superpositions with its activity image object overwritten in place and set again (non-trivial = the update changed the output)";
   ctx.assume("history vs fresh and cache on vs off: every bin within 1e-5 relative (+1e-7 of the largest bin)");
   ctx.assume("estimate(A,B) vs estimate(B,A): 1e-5 relative; pairs of detectors at the same transaxial position (different rings) are skipped: STIR's normalisation is 1/cos(90 deg) for them");
   ctx.assume("linearity: |out(x) - sum_j x_j out(e_j)| <= 100*eps_float*sum_j|x_j out(e_j)| per bin (float line integrals of <= 15 terms, reference sum in double)");
@@ -799,6 +806,7 @@ int main(int argc, char** argv)
   ctx.assume("a fresh simulation is configured in parameter-file order: threshold, cache switch, zoom factors, template, exam info, activity, attenuation, scatter-point image");
   ctx.assume("set_density_image_sptr() discards an explicit scatter-point image (as the code documents): the configuration then says 'derived from the attenuation image at set_up'");
   ctx.assume("compute without set_up after a setter: error() or the correct result are both accepted (process_data() documents 'need to call set_up() first')");
+  ctx.assume("an image object is modified in place only immediately before it is passed to its setter again (what a simulation shows between an in-place change and the setter call is not specified and not tested)");
   ctx.assume("randomly_place_scatter_points is off everywhere (rand()/srand() are interposed and must not be called)");
   const bool th = ctx.thorough();
   uint64_t unit = 0;
@@ -832,6 +840,7 @@ int main(int argc, char** argv)
   // ---- part H
   {
     struct HW { int g, zoom, tv, S0, phase, depth_quick, depth_thorough, ip; };
+    // quick tier: the in-place world has 18 operations (no set_template_proj_data_info / set_exam_info; all 22 in the thorough tier)
     const HW hws[] = { { 0, 0, 0, 0, 1, 5, 6 },   // caches filled by a first compute
                        { 0, 0, 0, 0, 0, 5, 6 },   // configured, never set up
                        { 0, 1, 0, -1, 1, 4, 5 },  // STIR's default zoom factors, scatter-point image derived from the attenuation image
@@ -850,7 +859,7 @@ int main(int argc, char** argv)
         if (depth <= 0 && !ctx.replaying()) continue;
         World w = make_world(hw.g, hw.zoom, hw.tv);
         w.S0 = hw.S0; w.ip = hw.ip;
-        run_H(ctx, w, hw.phase, depth, unit);
+        run_H(ctx, w, hw.phase, depth, unit, hw.ip && !th);
         if (!ctx.replaying() && ctx.expired()) goto done;
       }
   }
